@@ -861,6 +861,35 @@ func (r *Ring) Exec(t []string) string {
 			}
 			return "ok:" + idOrNil(p) + ":" + strings.Join(ss, ",")
 		})
+	case "reqjoinjoin":
+		// reqjoinjoin <via> <low> <high> <peer>: while <via>'s owner handles the join request of <low> (after it
+		// decided that it is responsible, before it takes the membership lock) a complete Join of <high> through
+		// <peer> runs
+		return withTimeout(2*opTimeout, func() string {
+			high, peer := u(3), u(4)
+			r.mu.Lock()
+			r.onIdentityOf = u(2)
+			r.onIdentity = func() {
+				func() {
+					defer func() { recover() }()
+					r.nodes[high].Join(r.Wrap(peer))
+				}()
+				time.Sleep(2 * time.Millisecond)
+			}
+			r.mu.Unlock()
+			p, s, err := r.Wrap(u(1)).RequestToJoin(r.Wrap(u(2)))
+			r.mu.Lock()
+			r.onIdentity = nil
+			r.mu.Unlock()
+			if err != nil {
+				return ErrName(err)
+			}
+			var ss []string
+			for _, x := range s {
+				ss = append(ss, idOrNil(x))
+			}
+			return "ok:" + idOrNil(p) + ":" + strings.Join(ss, ",")
+		})
 	case "finish":
 		return withTimeout(opTimeout, func() string {
 			r.Wrap(u(1)).FinishJoin(t[2] == "true", t[3] == "true")
